@@ -179,4 +179,41 @@ def writtenTwice (allowed : List (String × String)) (blocks : List (String × L
       | some p => if (paths.take i).contains p then some (b.1, p) else none
       | none => none)
 
+/-! ## hand-written enum byte codecs (the positional, non-TLV parts)
+
+  A row of `Generated/EnumCodecs.lean`: (codec, [(variant, byte written)], [(byte, variant read)]) — e.g.
+  `impl Writeable / Readable for ChannelUpdateStatus`, or the inline `match &htlc.state { … => 1u8.write(w)? … }` of
+  `FundedChannel::write` with the `match <u8 as Readable>::read(r)? { 1 => InboundHTLCState::… }` of `::read`. -/
+abbrev EnumCodec := String × List (String × Nat) × List (Nat × String)
+
+def EnumCodec.name (c : EnumCodec) : String := c.1
+def EnumCodec.writes (c : EnumCodec) : List (String × Nat) := c.2.1
+def EnumCodec.reads (c : EnumCodec) : List (Nat × String) := c.2.2
+
+/-- mirrors the read side: the variant a byte is read back as (`none`: the reader rejects the byte) -/
+def EnumCodec.readByte (c : EnumCodec) (b : Nat) : Option String := c.reads.lookup b
+
+/-- mirrors the write side -/
+def EnumCodec.writeVariant (c : EnumCodec) (v : String) : Option Nat := c.writes.lookup v
+
+/-- the DOCUMENTED lossy normalisation of a codec: (codec, variant, variant it is read back as); identity for every
+    variant not listed; `"!"` = the variant is written but its byte is not readable -/
+abbrev EnumCanon := List (String × String × String)
+
+def canonOf (canon : EnumCanon) (codec v : String) : String :=
+  match canon.find? (fun e => e.1 == codec && e.2.1 == v) with
+  | some e => e.2.2
+  | none => v
+
+/-- read (write v) for every variant of every codec: (codec, variant, what it reads back as, `"!"` if rejected) -/
+def codecRoundtrips (cs : List EnumCodec) : List (String × String × String) :=
+  cs.flatMap fun c => c.writes.map fun w => (c.name, w.1, (c.readByte w.2).getD "!")
+
+/-- the variants that do NOT read back as themselves -/
+def codecLossy (cs : List EnumCodec) : EnumCanon := (codecRoundtrips cs).filter fun t => t.2.1 != t.2.2
+
+/-- bytes a reader accepts that its writer never emits (legacy encodings): (codec, byte, variant) -/
+def codecReadOnly (cs : List EnumCodec) : List (String × Nat × String) :=
+  cs.flatMap fun c => (c.reads.filter fun r => !(c.writes.any fun w => w.2 == r.1)).map fun r => (c.name, r.1, r.2)
+
 end Ldk.TlvFrame
